@@ -1175,6 +1175,21 @@ class Interp:
             await self.after_mutation([box], "append-refused")
             return
         self.ctx.nontrivial = True
+        if self.compare and self.mode_sequential():
+            # C05: APPEND adds the message with the same content - the octets of the literal are the octets of the
+            # new message file (what COPY and MOVE do with the files they copy)
+            self.C("c05_append_octets")
+            keys = self.live_keys(box)
+            if keys:
+                try:
+                    with open(os.path.join(self.maildir, box.name, str(keys[-1])), "rb") as fh:
+                        stored = fh.read()
+                except OSError:
+                    stored = None
+                if stored is not None and stored != data and corpus.tok_of(stored) == tok:
+                    k = next((i for i in range(min(len(stored), len(data))) if stored[i] != data[i]), min(len(stored), len(data)))
+                    self.V("C05", "append_content_differs", mailbox=box.name, tok=tok, shape=op.get("shape", "plain"), sent=len(data), stored=len(stored),
+                           first_difference=k, sent_there=repr(data[k:k + 24]), stored_there=repr(stored[k:k + 24]))
         c = code_of(r, "APPENDUID")
         m = MMsg(None, tok, norm_flags(flags), date)
         self.C("c02_appenduid")
@@ -1194,6 +1209,9 @@ class Interp:
         if ms.selected is box:
             pass
         await self.after_mutation([box], "append")
+
+    def mode_sequential(self):
+        return self.prog.get("mode", "sequential") == "sequential"
 
     def placeholder_untouched(self, box, cmd, r):
         """C05: a command refused because its destination is a \\Noselect placeholder wrote nothing into it."""
